@@ -422,6 +422,39 @@ func execC12(c C12Case) (res evid.Result) {
 		}
 	}
 
+	// ---- a second Interest under the same name is built while the first one is being signed
+	// (another goroutine of the application, or a signer that has to fetch something first). The
+	// name slice has spare capacity, as a name put together with append has. Both packets must
+	// come out right (seeded C12-r6-2: the first wrote its digest through the shared name slot
+	// into the second packet).
+	if hasParams && signed {
+		in := p.Name.toEnc()
+		shared := make(enc.Name, len(in), len(in)+4)
+		copy(shared, in)
+		recA := p.Sig.build()
+		var eB *ndn.EncodedInterest
+		var errB error
+		n1, n2 := uint64(0xa1), uint64(0xb2)
+		if recA != nil {
+			recA.during = func() {
+				if sB := p.Sig.build(); sB != nil {
+					eB, errB = spec.Spec{}.MakeInterest(shared, &ndn.InterestConfig{Nonce: &n2}, blobsToWire(p.Params), sB.inner)
+				}
+			}
+			eA, errA := spec.Spec{}.MakeInterest(shared, &ndn.InterestConfig{Nonce: &n1}, blobsToWire(p.Params), recA)
+			if errA == nil && errB == nil && eA != nil && eB != nil {
+				for i, e := range []*ndn.EncodedInterest{eA, eB} {
+					which := []string{"first (outer)", "second (built while the first was being signed)"}[i]
+					w := append([]byte(nil), e.Wire.Join()...)
+					if d := decode("I", "ReadInterest", enc.NewBufferReader(w)); d.err != nil {
+						return fail("two Interests built from one name slice, the second while the first was being signed: the %s packet does not decode: %v", which, d.err)
+					}
+				}
+				res.Classes = append(res.Classes, "second-interest-built-while-the-first-was-being-signed")
+			}
+		}
+	}
+
 	// ---- (b), (c) tampered
 	var obligated, must []span
 	if signed {
